@@ -123,6 +123,9 @@ def parseInl (j : Json) : Except String Inl := do
   else if k == "role" then
     pure (.role (← str j "markup") (optStr j "label") (← str j "target") (← parseRoleSpec (← j.getObjVal? "spec")))
   else if k == "extref" then pure (.extref (← str j "label") (← str j "uri"))
+  else if k == "footref" then pure (.footref (← str j "name"))
+  else if k == "subref" then pure (.subref (← str j "name"))
+  else if k == "namedref" then pure (.namedref (← str j "name"))
   else throw s!"inline kind {k}"
 
 def parseInls (j : Json) (k : String) : Except String (List Inl) := do
@@ -180,6 +183,11 @@ partial def parseBlk (j : Json) : Except String Blk := do
           | _ => throw "attr entry")
       | _ => pure []
     pure (.code (← str j "dirname") (optStr j "lang") (← parseOpts j) attrs (← strs j "lines"))
+  else if k == "transition" then pure (.transition (firstChar (← str j "style")) (← nat j "len"))
+  else if k == "footnote" then pure (.footnote (← str j "name") (← kids "kids"))
+  else if k == "substdef" then pure (.substdef (← str j "name") (← parseInls j "xs"))
+  else if k == "blocksub" then pure (.blocksub (← str j "name"))
+  else if k == "namedtarget" then pure (.namedtarget (← str j "name") (← str j "uri"))
   else throw s!"block kind {k}"
 
 def valJson : Val → Json
